@@ -838,3 +838,56 @@ def r01_8_year_estimate_domain(ctx: Ctx) -> RuleResult:
 # (cross-registration moved to sa/rules/shared.py: SHARED)
 # (cross-registration moved to sa/rules/shared.py: SHARED)
 # (cross-registration moved to sa/rules/shared.py: SHARED)
+
+
+@rule("C01")
+def r01_9_badi_year_lengths(ctx: Ctx) -> RuleResult:
+    """Badi calendar: a year starts at Naw-Ruz (a day of March of the Gregorian year, from the year table) and has 19 x 19 days plus
+    4 or 5 days of Ayyam-i-Ha (from the same table).  The day-number <-> date maps are inverse of each other only if the two agree:
+    for every year y, start(y + 1) - start(y) == 361 + ayyam_i_ha(y).  Both table readers are evaluated by the abstract interpreter
+    for every year 1..999 (exact integers); the Gregorian date arithmetic between two 20-22 March dates is done by the checker
+    (proleptic Gregorian day numbers).  Years where the two disagree map a run of day numbers onto dates whose day number is one
+    larger (the dates of the following year's first days are hit twice, the last Ayyam-i-Ha day never)."""
+    import datetime
+
+    from ..absint import Iv
+    from ..oblig import interp
+
+    rr = RuleResult("R01.9", "Badi: for every year the distance between consecutive Naw-Ruz dates equals the year length given by the Ayyam-i-Ha table", min_instances=900)
+    M = ctx.M
+    c = M.cls("_BadiYearMonthDayCalculator")
+    fa = M.find_method(c, "_get_days_in_ayyami_ha")
+    fn = next((g for g in c.all_defs if g.name.endswith("get_naw_ruz_day_in_march")), None)
+    g0 = M.fold_class_const(c.name, mangle(c.name, "__GREGORIAN_YEAR_OF_FIRST_BADI_YEAR"))
+    if fa is None or fn is None or not isinstance(g0, int):
+        raise AnalysisError("Badi table readers / Gregorian base year not found")
+    start = M.find_method(c, "_calculate_start_of_year_days")
+    if "__GREGORIAN_YEAR_OF_FIRST_BADI_YEAR - 1" not in unparse(start.node) or "month=3" not in unparse(start.node):
+        raise AnalysisError("Badi year start is no longer `LocalDate(first Gregorian year + year - 1, March, naw_ruz_day)`")
+
+    def ev(f, y: int) -> int | None:
+        I = interp(ctx)
+        I.max_depth = 6
+        rets, _ = I.analyse(f, params={f.value_params[0].arg: Iv(y, y)})
+        vals = {int(v.lo) for v, _ in rets if isinstance(v, Iv) and v.const}
+        return next(iter(vals)) if len(vals) == 1 else None
+
+    first_std = M.fold_class_const(c.name, mangle(c.name, "__FIRST_YEAR_OF_STANDARDIZED_CALENDAR"))
+    pre_std_by_gregorian_leap = isinstance(first_std, int) and "_is_leap_year(year + cls.__GREGORIAN_YEAR_OF_FIRST_BADI_YEAR)" in unparse(fa.node).replace("_BadiYearMonthDayCalculator", "")
+    nr = {y: ev(fn, y) for y in range(1, 1001)}
+    for y in range(1, 1000):
+        rr.inst(nontrivial=False)
+        a = ev(fa, y)
+        if a is None and pre_std_by_gregorian_leap and y < first_std:
+            gy = y + g0  # the pre-standardisation arm: 5 days iff the Gregorian year y + base is leap (predicate proved by R02.2)
+            a = 5 if (gy % 4 == 0 and (gy % 100 != 0 or gy % 400 == 0)) else 4
+        rr.states += 2
+        if a is None or nr[y] is None or nr[y + 1] is None:
+            rr.fail(c.qual, f"year {y}: table readers not evaluable", ctx.loc(fa))
+            break
+        by_dates = (datetime.date(g0 + y, 3, nr[y + 1]) - datetime.date(g0 + y - 1, 3, nr[y])).days
+        if by_dates == 361 + a:
+            rr.ok()
+        else:
+            rr.fail(c.qual, f"Badi year {y}: Naw-Ruz {g0 + y - 1}-03-{nr[y]} to {g0 + y}-03-{nr[y + 1]} is {by_dates} days but the year has 361 + {a} = {361 + a} days by the Ayyam-i-Ha table", ctx.loc(fa))
+    return rr
